@@ -66,6 +66,28 @@ def o1(W, ob):
         return bool(src) and src[0] == 'call' and callee_matches(src[1].callee, 'UdpProtocol::average_frame_advantage')
     ok = len(mx) == 1 and any(from_avg(x) for x in mx[0].args) and \
         every_disjunct_has(G.guard(mx[0].bb), lambda x: x[0] == 'bool' and x[1].endswith('.disconnected') and x[2] is False)
+    if not ok and len(mx) == 1 and 'Iterator' in (mx[0].callee.path or '') and not [t for t in m.calls() if last_seg(t.callee.best) in ('fold', 'reduce', 'try_fold')]:
+        # the same reduction as an iterator chain: `endpoints.filter(|e| e.handles().any(|h| !status[h].disconnected)).map(|e| e.average_frame_advantage()).max().unwrap_or(0)`
+        # -- Iterator::max over a `map` whose closure is the average, downstream of a `filter` whose predicate is "some handle is not disconnected"; the empty
+        # case must be answered by the Option (unwrap_or / map_or), not by a seed value that takes part in the maximum (fold(0, max) clamps negative leads to 0)
+        def all_closures(f, depth=0):
+            r = []
+            for c in W.closures_of(f):
+                r.append(c)
+                if depth < 3:
+                    r.extend(all_closures(c, depth + 1))
+            return r
+        cl = all_closures(m)
+        maps_avg = any(any(callee_matches(t.callee, 'UdpProtocol::average_frame_advantage') for t in c.calls()) for c in cl)
+        adaptors = {last_seg(t.callee.best) for t in m.calls()}
+        negated_flag = False
+        for c in cl:
+            for st in c.stmts():
+                if st.k == 'assign' and st.rv.k == 'un' and st.rv.op == 'Not' and st.rv.a.is_place():
+                    src = W.ctx(c).expr_operand(st.rv.a)
+                    if key(src).endswith('.disconnected'):
+                        negated_flag = True
+        ok = maps_avg and negated_flag and 'filter' in adaptors and 'map' in adaptors and bool(adaptors & {'unwrap_or', 'unwrap_or_default', 'map_or'})
     ob.check(ok, 'max_frame_advantage|max-over-connected', 'frames_ahead is the maximum average advantage over the connected remote players',
              'max_frame_advantage is not a max over `!disconnected` handles of average_frame_advantage()', where(m))
 
